@@ -148,7 +148,7 @@ def jobs(tier):
 
 # configurations reached through something other than a declared sub-schema, and schemas that gain their sensitive
 # fields after a first masked rendering
-INDIRECT = ["virtual-returns-item", "virtual-returns-sub", "dynamic-holds-config", "late-attr", "late-item", "late-dotted-item", "late-auto-sub",
+INDIRECT = ["dict-of-list-of-configs", "list-of-list-of-configs", "dict-of-dict-of-list-of-configs", "virtual-returns-item", "virtual-returns-sub", "dynamic-holds-config", "late-attr", "late-item", "late-dotted-item", "late-auto-sub",
             "late-in-item-schema"]
 
 
@@ -165,6 +165,19 @@ def _indirect_world(variant, keypath, prior_render):
     item = cc.Schema()
     node(item)
     s.items = cc.ListField(item)
+    nested_val = None
+    if variant.endswith("of-list-of-configs"):
+        # configurations held in a list that itself sits inside a typed dict / list value
+        mk = lambda: item(sec_s="TOPSECRET-xyz", sec_x="XSECRET-q9", pub_s="PUBLIC-abc")  # noqa
+        if variant.startswith("dict-of-list"):
+            s.deepc = cc.DictField(cc.StringField(), cc.ListField(item))
+            nested_val = lambda: {"k": [mk(), mk()]}  # noqa
+        elif variant.startswith("list-of-list"):
+            s.deepc = cc.ListField(cc.ListField(item))
+            nested_val = lambda: [[mk()], [mk(), mk()]]  # noqa
+        else:
+            s.deepc = cc.DictField(cc.StringField(), cc.DictField(cc.StringField(), cc.ListField(item)))
+            nested_val = lambda: {"o": {"k": [mk()]}}  # noqa
     if variant == "virtual-returns-item":
         s.first = cc.VirtualField(lambda cfg: cfg.items[0] if cfg.items else None)
     if variant == "virtual-returns-sub":
@@ -173,6 +186,8 @@ def _indirect_world(variant, keypath, prior_render):
     tree = dict(vals, sub=dict(vals), items=[dict(vals)])
     cfg = cc.Config(s, key_filename=keypath)
     cfg.load_tree(tree)
+    if nested_val is not None:
+        cfg.deepc = nested_val()
     if prior_render:
         cfg.to_tree(sensitive_mask="*")
         cfg.dumps("json", sensitive_mask="XX")
